@@ -4,9 +4,13 @@ CONSTANTS
   ImrVals <- ImrFull
   MaxDepth = 40
   MaxNest = 2
+  AckOnReturn = FALSE
   RecordActs = TRUE
 INVARIANT DeliverOnlyIfEnabled
 INVARIANT FrameOnEntry
+INVARIANT EnteredForEnabledPending
+PROPERTY StatusNotLost
+PROPERTY StillOwed
 PROPERTY NoReentryWhileMasked
 PROPERTY PromptWhenEnabled
 PROPERTY HaltIdle
